@@ -63,6 +63,12 @@ def c03(tier, seed, only=None):
                                 dev=3 if tier == "quick" else 4), mons))
     jobs += _interim_jobs(tier, mons, dict(hold=1, pause=1, resume=2, horizon=60, resume_only_at_rest=False,
                                            dev=4 if tier == "quick" else 5))
+    # an action that reports canceled on its own (the user canceled that one action, no workflow request)
+    for s in gen.f2_all(tier) + gen.f4_all(tier) + gen.f5_all(tier):
+        if gen.is_huge(s) or (tier == "quick" and gen.is_big(s) and s.family == "F2"):
+            continue
+        jobs.append(job(s, dict(extra_outcomes=[["canceled", None]], pause=1, resume=1, horizon=60,
+                                dev=3 if tier == "quick" else 4), mons))
     for s in gen.f3_all():
         dev = gen.f3_dev(s, tier)
         jobs.append(job(s, dict(pause=1, resume=1, cancel=1, dev=dev, horizon=150), mons))
